@@ -7,14 +7,28 @@ from implutil import BACKENDS, ints, make_context, exc_name
 RULE = ('case = (table, backend, operator in {ext,int,extm,intm}, ordered duplicate-free selection, base list or None) '
         'or the by-name call; exhaustive over all tables up to the tier scope x all ordered selections x all ordered '
         'base lists x 3 backends, then seeded random larger tables; non-trivial = table neither all-true nor all-false '
-        'and non-empty selection; distinct = distinct (table, backend, operator, selection, base)')
+        'and non-empty selection; distinct = distinct (table, backend, operator, selection, base).  '
+        'History cases (hist=1) = ONE fresh context object + a list of steps: calls of the eight operators whose arguments '
+        'are literals handed over through a feed (list/tuple/set/frozenset/dict view/deque/ndarray/numpy ints/generator/'
+        'iter/map/filter) or named caller-owned slots (list or ndarray objects that later steps mutate IN PLACE and pass '
+        'again), renames through the object_names/attribute_names setters, replacement of the table through the public '
+        'data setter, in-place scribbling on returned values; every call is judged against the Lean model/spec for the '
+        'content current AT THAT CALL')
 EXHAUSTIVE = {'quick': 'all tables n,m<=3 (682) x 4 operators x ordered selections x (None + ordered base lists) x 3 backends; '
-                       'by-name: all tables n,m<=2',
+                       'by-name: all tables n,m<=2; histories: all tables n,m<=2 x 8 operators x every ordered pair (old content, '
+                       'new content) of an in-place mutated argument list; all tables n,m<=2 x by-name operators x every '
+                       'ordered selection x 4 one-shot feeds',
               'thorough': 'all tables with n*m<=12, n,m<=4, sorted+reversed selections; plus the quick scope'}
 EXPLANATION = ('output is pinned uniquely by the property, so implementation != Spec is a property failure; the Lean '
                'theorems Fca.C01.* prove model = Spec for all inputs')
-ASSUMPTIONS = ['index arguments are duplicate-free lists of valid non-negative indexes (documented API range)',
-               'object/attribute names pairwise distinct']
+ASSUMPTIONS = ['index arguments hold valid non-negative indexes (documented API range); repetitions and any order are explored, '
+               'except for the monotone operators when the NUMBER of given indexes equals the dimension although an index is '
+               'repeated (the len()-based "everything given" shortcut of the code, hypotheses hnotfull / Nodup of the theorems)',
+               'object/attribute names pairwise distinct',
+               'container types of index arguments are limited to those the unchanged tree answers on every backend '
+               '(sets / dict views / tuples as base sets are rejected by the numpy or bitarray backend and are not explored); '
+               'one-shot iterators are explored for the by-name operators (declared Iterable and iterated once) and, for the '
+               'by-index operators (which call len()), only with the verdict "raise or answer right"']
 CHUNK = 4000
 
 OBJ = ['g0', 'g1', 'g2', 'g3', 'g4', 'g5', 'g6', 'g7', 'g8', 'g9', 'g10', 'g11', 'g12', 'g13']
@@ -86,6 +100,7 @@ def gen(tier, seed, boost=False):
             for c in _name_cases(rows, 'history-names', rh):
                 c['names0'] = [list(names0[0]), list(names0[1])]
                 yield c
+    yield from _hist_streams(tier, seed, boost)
     if tier == 'thorough' or boost:
         def srt(k):
             out = []
@@ -120,6 +135,8 @@ def gen(tier, seed, boost=False):
 
 
 def impl(c):
+    if c.get('hist'):
+        return _hist_impl(c)
     if c.get('names0'):
         # history stream: the context is first used by name under other names, then renamed through the public setters
         from fcapy.context import FormalContext
@@ -152,6 +169,8 @@ def impl(c):
 
 def requests(c):
     from implutil import SHORT
+    if c.get('hist'):
+        return [rq for _k, rq, _u in _hist_replay(c)]
     base = dict(be=SHORT[c['be']], rows=c['rows'], w=len(c['rows'][0]), kind=c['kind'], sel=c['sel'], base=c['base'])
     if c.get('names'):
         base.update(op='C01.n', objs=c['objs'], attrs=c['attrs'], mono=c['mono'])
@@ -161,6 +180,8 @@ def requests(c):
 
 
 def judge(c, io, rep):
+    if c.get('hist'):
+        return _hist_judge(c, io, rep)
     r = rep[0]
     if c.get('names'):
         want = {'ok': r['ok']} if 'ok' in r else {'err': r['err']}
@@ -175,26 +196,878 @@ def judge(c, io, rep):
 
 
 def nontrivial(c):
+    if c.get('hist'):
+        return G.is_mixed(c['rows']) and sum(1 for st in c['steps'] if st['op'] in ('i', 'n')) > 0
     return G.is_mixed(c['rows']) and len(c['sel']) > 0
 
 
 def key(c):
+    if c.get('hist'):
+        return ['hist', c['rows'], c['be'], c.get('objs'), c.get('attrs'), c['slots'], c['steps']]
     return [c['rows'], c['be'], c['kind'], c['sel'], c['base'], c.get('mono'), bool(c.get('names')), c.get('names0')]
 
 
 def branch(c, io, rep):
+    if c.get('hist'):
+        return _hist_branch(c, io, rep)
     return [c['stream'], f"{c['be']}:{c['kind']}" + (':name' if c.get('names') else '')
             + (':base' if c['base'] is not None else ''), 'err' if 'err' in io else 'ok']
 
 
 def signature(c, io, rep, v):
+    if c.get('hist'):
+        return f"C01:{c['be']}:hist:{v.get('where', '?')}"
     return f"C01:{c['be']}:{c['kind']}:{'name' if c.get('names') else 'index'}:{'err:' + io['err'] if 'err' in io else 'wrong'}"
 
 
 def shrink(c):
+    if c.get('hist'):
+        yield from _hist_shrink(c)
+        return
     if c.get('names'):
         return
     if c['kind'] in ('ext', 'extm'):
         yield from G.shrink_table_case(c, row_keys=('base',), col_keys=('sel',))
     else:
         yield from G.shrink_table_case(c, row_keys=('sel',), col_keys=('base',))
+
+
+# =====================================================================================================================
+# History cases: ONE context object, a list of steps (see RULE).  Everything is judged against the Lean model / spec
+# evaluated on the content that is current at the moment of each call (never against a remembered earlier answer).
+# =====================================================================================================================
+ONESHOT = ('gen', 'iter', 'map', 'filter')
+# feeds that the unchanged tree answers on every backend for the by-index operators (probed; see ASSUMPTIONS)
+SEL_FEEDS_I = ('list', 'tuple', 'set', 'frozenset', 'dictkeys', 'dictvals', 'deque', 'nd', 'nd32', 'npint')
+BASE_FEEDS_I = ('list', 'list', 'deque', 'nd', 'nd32', 'npint', 'tuple')
+SEL_FEEDS_N = ('list', 'tuple', 'set', 'frozenset', 'dictkeys', 'dictvals', 'deque') + ONESHOT + ONESHOT
+BASE_FEEDS_N = ('list', 'tuple', 'dictkeys', 'dictvals', 'deque') + ONESHOT + ONESHOT
+UNORDERED = ('set', 'frozenset')
+DEDUP = ('set', 'frozenset', 'dictkeys')
+
+
+def _sel_feeds_i(kind, be):
+    if kind == 'extm' and be == 'BinTableNumpy':     # any_i hands the raw collection to numpy fancy indexing
+        return ('list', 'tuple', 'nd', 'nd32', 'npint', 'deque')
+    return SEL_FEEDS_I
+
+
+def _base_feeds_i(kind, be):
+    if be == 'BinTableNumpy' and kind in ('ext', 'extm'):   # data[(i, j)] is a 2-d index for numpy
+        return tuple(f for f in BASE_FEEDS_I if f != 'tuple')
+    return BASE_FEEDS_I
+
+
+def _mk(arg, slots, names):
+    """Build the actual Python argument of a call step."""
+    if 's' in arg:
+        return slots[arg['s']]
+    import collections
+    import numpy as np
+    v, f = arg['v'], arg.get('f', 'list')
+    if f == 'list':
+        return list(v)
+    if f == 'tuple':
+        return tuple(v)
+    if f == 'set':
+        return set(v)
+    if f == 'frozenset':
+        return frozenset(v)
+    if f == 'dictkeys':
+        return dict.fromkeys(v).keys()
+    if f == 'dictvals':
+        return dict(enumerate(v)).values()
+    if f == 'deque':
+        return collections.deque(v)
+    if f == 'nd':
+        return np.array(v, dtype=np.int64)
+    if f == 'nd32':
+        return np.array(v, dtype=np.int32)
+    if f == 'npint':
+        return [np.int64(x) for x in v]
+    if f == 'gen':
+        return (x for x in v)
+    if f == 'iter':
+        return iter(list(v))
+    if f == 'map':
+        return map(str if names else int, v)
+    if f == 'filter':
+        return filter(lambda x: True, v)
+    raise ValueError('unknown feed ' + f)
+
+
+def _eff(arg, slots):
+    """The content the callee sees (as a list) for an argument of a call step."""
+    if arg is None:
+        return None
+    if 's' in arg:
+        return list(slots[arg['s']])
+    v, f = arg['v'], arg.get('f', 'list')
+    return list(dict.fromkeys(v)) if f in DEDUP else list(v)
+
+
+def _snap(x):
+    return x.tolist() if hasattr(x, 'tolist') else list(x)
+
+
+def _hist_impl(c):
+    import numpy as np
+    from fcapy.context import FormalContext
+    K = FormalContext(data=[[bool(v) for v in r] for r in c['rows']],
+                      object_names=None if c.get('objs') is None else list(c['objs']),
+                      attribute_names=None if c.get('attrs') is None else list(c['attrs']), backend=c['be'])
+    K = _ctor(K, c.get('ctor', 'plain'), c)
+    slots = {k: (np.array(d['v'], dtype=np.int64) if d['t'] == 'nd' else list(d['v'])) for k, d in c['slots'].items()}
+    calls, argmut, last = [], [], None
+    for k, st in enumerate(c['steps']):
+        op = st['op']
+        if op in ('i', 'n'):
+            names = op == 'n'
+            a = _mk(st['sel'], slots, names)
+            b = None if st.get('base') is None else _mk(st['base'], slots, names)
+            before = {s: _snap(v) for s, v in slots.items()}
+            try:
+                if names:
+                    if st['kind'] == 'ext':
+                        r = K.extension(a, b, is_monotone=bool(st['mono']))
+                    else:
+                        r = K.intention(a, is_monotone=bool(st['mono']))
+                    out = {'ok': [str(x) for x in r]}
+                else:
+                    f = {'ext': K.extension_i, 'int': K.intention_i, 'extm': K.extension_monotone_i,
+                         'intm': K.intention_monotone_i}[st['kind']]
+                    r = f(a, b)
+                    out = {'ok': ints(r)}
+                last = r
+            except Exception as e:
+                last = None
+                out = {'err': exc_name(e)}
+            calls.append(out)
+            for s, v in slots.items():
+                if _snap(v) != before[s]:
+                    argmut.append([k, s])
+        elif op == 'mut':
+            cur = slots[st['slot']]
+            if isinstance(cur, list):
+                cur[:] = list(st['v'])
+            elif len(cur) == len(st['v']):
+                cur[:] = st['v']
+            else:       # an ndarray cannot change its length in place
+                slots[st['slot']] = np.array(st['v'], dtype=np.int64)
+        elif op == 'rename':
+            if 'objs' in st:
+                K.object_names = None if st['objs'] is None else list(st['objs'])
+            if 'attrs' in st:
+                K.attribute_names = None if st['attrs'] is None else list(st['attrs'])
+        elif op == 'data':
+            K.data.data = [[bool(v) for v in r] for r in st['rows']]
+            if 'objs' in st:
+                K.object_names = None if st['objs'] is None else list(st['objs'])
+            if 'attrs' in st:
+                K.attribute_names = None if st['attrs'] is None else list(st['attrs'])
+        elif op == 'read':
+            _read(K, st.get('what', 0))
+        elif op == 'scribble':
+            # the caller writes into the value returned by the previous call (unless it IS one of the caller's own slots)
+            if last is not None and not any(last is v for v in slots.values()):
+                if isinstance(last, list):
+                    last.clear()
+                    last.append(10 ** 6)
+                elif isinstance(last, np.ndarray) and last.flags.writeable:
+                    last[...] = 0
+            last = None
+    return {'calls': calls, 'argmut': argmut}
+
+
+CTORS = ('plain', 'TT', 'inv', 'slice', 'slice2', 'nd', 'bt', 'json', 'cxt')
+
+
+def _ctor(K, how, c):
+    """The same context reached through a non-default construction path (same table, names and backend)."""
+    import numpy as np
+    from fcapy.context import FormalContext
+    if how == 'TT':
+        return K.T.T
+    if how == 'inv':
+        return ~~K
+    if how == 'slice':
+        return K[:, :]
+    if how == 'slice2':
+        return K[list(range(K.n_objects)), list(range(K.n_attributes))]
+    if how == 'nd':
+        return FormalContext(data=np.array(c['rows'], dtype=bool).reshape(len(c['rows']), len(c['rows'][0])),
+                             object_names=list(K.object_names), attribute_names=list(K.attribute_names), backend=c['be'])
+    if how == 'bt':
+        return FormalContext(data=K.data, object_names=list(K.object_names), attribute_names=list(K.attribute_names),
+                             backend=c['be'])
+    if how == 'json' and c['be'] == 'BinTableBitarray':      # the readers build the default backend
+        return FormalContext.read_json(data=K.write_json())
+    if how == 'cxt' and c['be'] == 'BinTableBitarray':
+        return FormalContext.read_cxt(data=K.write_cxt())
+    return K
+
+
+def _read(K, what):
+    """Read-only public API touched between two uses (a place where lazily built memos are born)."""
+    reads = (lambda: K.T, lambda: hash(K), lambda: K.hash_fixed(), lambda: (K.size, len(K), K.n_bin_attrs),
+             lambda: repr(K), lambda: K.data.T, lambda: K.data.to_list(), lambda: list(K.to_bin_attr_extents()),
+             lambda: K.to_numeric(), lambda: K == K, lambda: ~K, lambda: K[:, :], lambda: K.write_json(),
+             lambda: (K.object_names, K.attribute_names), lambda: hash(K.data), lambda: K.data.to_tuple(),
+             lambda: (K.data.sum(0), K.data.sum(1), K.data.all(), K.data.any()))
+    try:
+        reads[what % len(reads)]()
+    except Exception:
+        pass
+
+
+def _dflt(names, k):
+    return [str(i) for i in range(k)] if names is None else list(names)
+
+
+def _hist_replay(c):
+    """(step index, driver request, order-free?) for every call step, for the state current at that step."""
+    from implutil import SHORT
+    rows = c['rows']
+    objs, attrs = _dflt(c.get('objs'), len(rows)), _dflt(c.get('attrs'), len(rows[0]))
+    slots = {k: list(d['v']) for k, d in c['slots'].items()}
+    for k, st in enumerate(c['steps']):
+        op = st['op']
+        if op == 'mut':
+            slots[st['slot']] = list(st['v'])
+        elif op in ('rename', 'data'):
+            if op == 'data':
+                rows = st['rows']
+            if 'objs' in st:
+                objs = _dflt(st['objs'], len(rows))
+            if 'attrs' in st:
+                attrs = _dflt(st['attrs'], len(rows[0]))
+        elif op in ('i', 'n'):
+            rq = dict(be=SHORT[c['be']], rows=rows, w=len(rows[0]), kind=st['kind'], sel=_eff(st['sel'], slots),
+                      base=_eff(st.get('base'), slots))
+            if op == 'n':
+                rq.update(op='C01.n', objs=objs, attrs=attrs, mono=bool(st['mono']))
+            else:
+                rq.update(op='C01.i')
+            yield k, rq, False
+
+
+def _call_txt(st):
+    def a(x):
+        if x is None:
+            return 'None'
+        return f"<slot {x['s']}>" if 's' in x else f"{x.get('f', 'list')}({x['v']})"
+    if st['op'] == 'n':
+        fn = 'extension' if st['kind'] == 'ext' else 'intention'
+        return f"{fn}({a(st['sel'])}" + (f", base_objects={a(st['base'])}" if st.get('base') is not None else '') \
+            + (', is_monotone=True' if st['mono'] else '') + ')'
+    fn = {'ext': 'extension_i', 'int': 'intention_i', 'extm': 'extension_monotone_i', 'intm': 'intention_monotone_i'}[st['kind']]
+    return f"{fn}({a(st['sel'])}, {a(st.get('base'))})"
+
+
+def _hist_judge(c, io, rep):
+    calls = io.get('calls', [])
+    reqs = list(_hist_replay(c))
+    if len(calls) != len(reqs) or len(rep) != len(reqs):
+        return dict(ok=False, kind='harness', detail=f'history bookkeeping: {len(calls)} results, {len(reqs)} requests, {len(rep)} replies')
+    for n_call, ((k, rq, _u), r, got) in enumerate(zip(reqs, rep, calls)):
+        st = c['steps'][k]
+        if st['op'] == 'n':
+            want = {'ok': r['ok']} if 'ok' in r else {'err': r['err']}
+        else:
+            if r['model'] != r['spec']:
+                return dict(ok=False, kind='harness', detail=f'step {k}: model {r["model"]} != spec {r["spec"]} '
+                                                             f'(contradicts theorem: input out of scope?) request {rq}')
+            want = {'ok': r['spec']}
+        if got == want or (st.get('soft') and 'err' in got):
+            continue
+        where = f"{st['kind']}{'m' if st.get('mono') else ''}:{'name' if st['op'] == 'n' else 'index'}:" \
+                + ('err:' + got['err'] if 'err' in got else 'wrong')
+        return dict(ok=False, kind='property', where=where,
+                    detail=f'step {k} (call #{n_call}) of the history on one {c["be"]} context: {_call_txt(st)} with current '
+                           f'selection {rq["sel"]}, base {rq["base"]}, table {rq["rows"]}'
+                           + (f', names {rq["objs"]}/{rq["attrs"]}' if st['op'] == 'n' else '')
+                           + f' returned {got}, the prime set is {want}')
+    if io.get('argmut'):
+        k, s = io['argmut'][0]
+        return dict(ok=False, kind='property', where='argmut',
+                    detail=f'step {k}: {_call_txt(c["steps"][k])} modified the caller\'s argument object (slot {s})')
+    return dict(ok=True)
+
+
+def _hist_branch(c, io, rep):
+    out = [c['stream']]
+    calls = io.get('calls', [])
+    k = 0
+    for st in c['steps']:
+        if st['op'] in ('i', 'n'):
+            tag = f"{st['kind']}{'m' if st.get('mono') else ''}" + (':name' if st['op'] == 'n' else '')
+            for arg, what in ((st['sel'], 'sel'), (st.get('base'), 'base')):
+                if arg is not None:
+                    out.append(f"hist:{tag}:{what}={'slot' if 's' in arg else arg.get('f', 'list')}")
+            if k < len(calls):
+                out.append('hist:' + ('err' if 'err' in calls[k] else 'ok'))
+            k += 1
+        else:
+            out.append('hist:step:' + st['op'])
+    return sorted(set(out))
+
+
+def _hist_shrink(c):
+    steps = c['steps']
+    # shortest failing prefix first
+    for k in range(1, len(steps)):
+        if steps[k - 1]['op'] in ('i', 'n'):
+            yield dict(c, steps=steps[:k])
+    for k in range(len(steps)):
+        yield dict(c, steps=steps[:k] + steps[k + 1:])
+    # plain lists instead of exotic re-iterable feeds (one-shot feeds are kept: they are the point of such a case)
+    for k, st in enumerate(steps):
+        if st['op'] in ('i', 'n'):
+            for key in ('sel', 'base'):
+                arg = st.get(key)
+                if arg is not None and 'v' in arg and arg.get('f', 'list') not in ('list',) + ONESHOT + DEDUP:
+                    st2 = dict(st)
+                    st2[key] = dict(v=arg['v'], f='list')
+                    yield dict(c, steps=steps[:k] + [st2] + steps[k + 1:])
+                if arg is not None and 'v' in arg and len(arg['v']) > 0 and not st.get('mono') and st['kind'] in ('ext', 'int'):
+                    for i in range(len(arg['v'])):
+                        st2 = dict(st)
+                        st2[key] = dict(arg, v=arg['v'][:i] + arg['v'][i + 1:])
+                        yield dict(c, steps=steps[:k] + [st2] + steps[k + 1:])
+    # unused slots
+    used = {a['s'] for st in steps if st['op'] in ('i', 'n') for a in (st['sel'], st.get('base')) if a is not None and 's' in a}
+    if set(c['slots']) - used:
+        yield dict(c, slots={k: v for k, v in c['slots'].items() if k in used},
+                   steps=[st for st in steps if not (st['op'] == 'mut' and st['slot'] not in used)])
+    if not any(st['op'] == 'data' for st in steps):
+        rows = c['rows']
+        for i in range(len(rows)):
+            for j in range(len(rows[0])):
+                if rows[i][j]:
+                    r2 = [list(r) for r in rows]
+                    r2[i][j] = 0
+                    yield dict(c, rows=r2)
+
+
+# ---- generators -----------------------------------------------------------------------------------------------------
+def _debruijn_pairs(k):
+    """A cyclic walk over range(k) in which every ordered pair (x, y), x == y included, is consecutive exactly once."""
+    if k == 1:
+        return [0, 0]
+    edges = {x: list(range(k)) for x in range(k)}
+    stack, walk = [0], []
+    while stack:
+        x = stack[-1]
+        if edges[x]:
+            stack.append(edges[x].pop())
+        else:
+            walk.append(stack.pop())
+    return walk[::-1]
+
+
+def _lit(v, f='list'):
+    return dict(v=list(v), f=f)
+
+
+def _len_trap(kind, mono, sel, n, m):
+    """Monotone operators take the len()-based shortcut 'everything is given': excluded when an index is repeated."""
+    if kind == 'extm' or (kind == 'ext' and mono):
+        return len(sel) == m and len(set(sel)) < m
+    if kind == 'intm' or (kind == 'int' and mono):
+        return len(sel) == n and len(set(sel)) < n
+    return False
+
+
+OPS8 = (('i', 'ext', None), ('i', 'extm', None), ('i', 'int', None), ('i', 'intm', None),
+        ('n', 'ext', False), ('n', 'ext', True), ('n', 'int', False), ('n', 'int', True))
+
+
+def _step(op, kind, mono, sel, base):
+    st = dict(op=op, kind=kind, sel=sel, base=base)
+    if op == 'n':
+        st['mono'] = bool(mono)
+    return st
+
+
+def _exh_alias(rows, be):
+    """Small scope, complete: one argument is a caller-owned list walked IN PLACE through every ordered pair of contents
+    (de Bruijn walk), the other argument fixed; all eight operators."""
+    n, m = len(rows), len(rows[0])
+    objs, attrs = OBJ[:n], ATT[:m]
+    for op, kind, mono in OPS8:
+        ds, db = (m, n) if kind in ('ext', 'extm') else (n, m)
+        nm_s, nm_b = (attrs, objs) if kind in ('ext', 'extm') else (objs, attrs)
+        conv_s = (lambda v: [nm_s[i] for i in v]) if op == 'n' else (lambda v: list(v))
+        conv_b = (lambda v: [nm_b[i] for i in v]) if op == 'n' else (lambda v: list(v))
+        has_base = not (op == 'n' and kind == 'int')
+        sels = list(G.ordered_sublists(range(ds)))
+        bases = list(G.ordered_sublists(range(db)))
+        common = dict(stream='history-alias-exhaustive', hist=1, be=be, rows=rows, objs=objs, attrs=attrs)
+        if has_base:        # the base set is the walked list
+            walk = _debruijn_pairs(len(bases))
+            for sel in sels:
+                steps = []
+                for x in walk[1:]:
+                    steps.append(_step(op, kind, mono, _lit(conv_s(sel)), dict(s='B')))
+                    steps.append(dict(op='mut', slot='B', v=conv_b(bases[x])))
+                steps.append(_step(op, kind, mono, _lit(conv_s(sel)), dict(s='B')))
+                yield dict(common, slots={'B': dict(t='list', v=conv_b(bases[walk[0]]))}, steps=steps)
+        walk = _debruijn_pairs(len(sels))
+        for base in ([None] + bases) if has_base else [None]:     # the selection is the walked list
+            steps = []
+            b = None if base is None else _lit(conv_b(base))
+            for x in walk[1:]:
+                steps.append(_step(op, kind, mono, dict(s='A'), b))
+                steps.append(dict(op='mut', slot='A', v=conv_s(sels[x])))
+            steps.append(_step(op, kind, mono, dict(s='A'), b))
+            yield dict(common, slots={'A': dict(t='list', v=conv_s(sels[walk[0]]))}, steps=steps)
+        if op == 'i':       # ndarray arguments updated in place (same length): both at once
+            for ln_s in range(1, ds + 1):
+                for ln_b in range(1, db + 1):
+                    ss = [list(p) for p in __import__('itertools').permutations(range(ds), ln_s)]
+                    bs = [list(p) for p in __import__('itertools').permutations(range(db), ln_b)]
+                    steps = []
+                    for s1 in ss:
+                        for b1 in bs:
+                            steps.append(dict(op='mut', slot='A', v=s1))
+                            steps.append(dict(op='mut', slot='B', v=b1))
+                            steps.append(_step(op, kind, mono, dict(s='A'), dict(s='B')))
+                    yield dict(common, slots={'A': dict(t='nd', v=ss[-1]), 'B': dict(t='nd', v=bs[-1])}, steps=steps)
+
+
+def _exh_oneshot(rows, be):
+    """Small scope, complete: the by-name operators fed with one-shot iterators (every ordered selection x 4 feeds)."""
+    n, m = len(rows), len(rows[0])
+    objs, attrs = OBJ[:n], ATT[:m]
+    common = dict(stream='oneshot-names-exhaustive', hist=1, be=be, rows=rows, objs=objs, attrs=attrs, slots={})
+    for mono in (False, True):
+        sels = [[attrs[j] for j in s] for s in G.ordered_sublists(range(m))]
+        bases = [[objs[i] for i in s] for s in G.ordered_sublists(range(n))]
+        yield dict(common, steps=[_step('n', 'ext', mono, _lit(s, f), None) for s in sels for f in ONESHOT])
+        for s in sels:
+            yield dict(common, steps=[_step('n', 'ext', mono, _lit(s), _lit(b, f)) for b in bases for f in ONESHOT]
+                       + [_step('n', 'ext', mono, _lit(s, f), _lit(b, f2)) for b in bases
+                          for f, f2 in (('gen', 'iter'), ('map', 'gen'), ('iter', 'filter'), ('filter', 'map'))])
+        osels = [[objs[i] for i in s] for s in G.ordered_sublists(range(n))]
+        yield dict(common, steps=[_step('n', 'int', mono, _lit(s, f), None) for s in osels for f in ONESHOT])
+        # unknown names handed over by a one-shot iterator are rejected all the same
+        yield dict(common, steps=[_step('n', 'ext', mono, _lit(s + ['zz'], f), None) for s in sels[:3] for f in ONESHOT]
+                   + [_step('n', 'ext', mono, _lit(sels[-1]), _lit(['zz'] + b, f)) for b in bases[:3] for f in ONESHOT]
+                   + [_step('n', 'int', mono, _lit(['zz'] + s, f), None) for s in osels[:3] for f in ONESHOT])
+
+
+NAME_POOLS = ('gm', 'default', 'revdigits', 'same', 'OBJATT')
+
+
+def _pool(rng, n, m, which=None):
+    which = which or rng.choice(NAME_POOLS)
+    if which == 'default':
+        return None, None
+    if which == 'revdigits':        # names that look like (other) indexes
+        return [str(n - 1 - i) for i in range(n)], [str(m - 1 - j) for j in range(m)]
+    if which == 'same':             # the same strings name objects and attributes
+        return ['x%d' % i for i in range(n)], ['x%d' % j for j in range(m)]
+    if which == 'OBJATT' and n <= len(OBJ) and m <= len(ATT):
+        return OBJ[:n], ATT[:m]
+    return ['g%d' % i for i in range(n)], ['m%d' % j for j in range(m)]
+
+
+def _rsel(rng, dim, dup=True, lmax=None, lmin=0):
+    lmax = min(dim, 5) + 1 if lmax is None else lmax
+    k = rng.randint(lmin, max(lmin, lmax))
+    if dup and rng.random() < 0.4:
+        return [rng.randrange(dim) for _ in range(k)]
+    return rng.sample(range(dim), min(k, dim))
+
+
+class _Hist:
+    """Random history on one context; keeps the symbolic state so that every generated call is inside the explored scope."""
+
+    def __init__(self, rng, rows, be, stream, weights):
+        self.rng, self.be, self.stream, self.w = rng, be, stream, weights
+        self.rows0 = self.rows = rows
+        n, m = self.dims()
+        self.objs0, self.attrs0 = _pool(rng, n, m)
+        self.objs, self.attrs = _dflt(self.objs0, n), _dflt(self.attrs0, m)
+        self.old_names = ['zz', '', 'A']
+        self.slots = {}
+        self.slot_dom = {'ia': 'a', 'io': 'o', 'xa': 'a', 'xo': 'o', 'na': 'a', 'no': 'o'}
+        for s in self.slot_dom:
+            self.slots[s] = self.fresh(s, first=True)
+        self.slots0 = {s: dict(t='nd' if s[0] == 'x' else 'list', v=list(v)) for s, v in self.slots.items()}
+        self.steps = []
+        self.ctor = 'plain'
+        if rng.random() < weights.get('ctor', 0.0):
+            self.ctor = rng.choice(CTORS[1:])
+            if self.ctor == 'inv' and any(x.startswith('not ') for x in self.attrs):
+                self.ctor = 'plain'
+
+    def dims(self):
+        return len(self.rows), len(self.rows[0])
+
+    def dim(self, dom):
+        return self.dims()[0 if dom == 'o' else 1]
+
+    def fresh(self, s, first=False):
+        dom = self.slot_dom[s]
+        d = self.dim(dom)
+        if s[0] == 'x':
+            ln = self.rng.randint(1, min(d, 4) + 1) if first else len(self.slots[s])
+            return [self.rng.randrange(d) for _ in range(ln)] if self.rng.random() < 0.5 or ln > d else self.rng.sample(range(d), ln)
+        v = _rsel(self.rng, d)
+        if s[0] == 'n':
+            nm = self.objs if dom == 'o' else self.attrs
+            v = [nm[i] for i in v]
+        return v
+
+    def mutate(self, s):
+        cur = self.slots[s]
+        r = self.rng.random()
+        if s[0] != 'x' and cur and r < 0.5:
+            # typical working-set updates: reverse / rotate / drop / replace one / append
+            how = self.rng.choice(('rev', 'rot', 'drop', 'sort', 'append', 'replace'))
+            new = list(cur)
+            dom = self.slot_dom[s]
+            pool = list(range(self.dim(dom))) if s[0] == 'i' else (self.objs if dom == 'o' else self.attrs)
+            if how == 'rev':
+                new.reverse()
+            elif how == 'rot':
+                new = new[1:] + new[:1]
+            elif how == 'drop':
+                del new[self.rng.randrange(len(new))]
+            elif how == 'sort':
+                new.sort()
+            elif how == 'append':
+                new.append(self.rng.choice(pool))
+            else:
+                new[self.rng.randrange(len(new))] = self.rng.choice(pool)
+            if s[0] == 'n' and any(x not in pool for x in new):
+                new = self.fresh(s)
+        else:
+            new = self.fresh(s)
+        self.slots[s] = new
+        self.steps.append(dict(op='mut', slot=s, v=list(new)))
+
+    # -- arguments --------------------------------------------------------------------------------------------------
+    def idx_of(self, names, dom):
+        nm = self.objs if dom == 'o' else self.attrs
+        return [nm.index(x) if x in nm else -1 for x in names]
+
+    def arg(self, op, kind, mono, role, want_slot, oneshot=False):
+        """-> (ARG, effective content as indexes (-1 = unknown name))"""
+        rng = self.rng
+        dom = ('a' if role == 'sel' else 'o') if kind in ('ext', 'extm') else ('o' if role == 'sel' else 'a')
+        d = self.dim(dom)
+        n, m = self.dims()
+        for _try in range(20):
+            if want_slot:
+                cands = [s for s, dm in self.slot_dom.items() if dm == dom and (s[0] == 'n') == (op == 'n')]
+                s = rng.choice(cands)
+                arg, eff = dict(s=s), list(self.slots[s])
+            else:
+                v = _rsel(rng, d)
+                if op == 'n':
+                    nm = self.objs if dom == 'o' else self.attrs
+                    v = [nm[i] for i in v]
+                    if rng.random() < self.w.get('unknown', 0.08):
+                        v.insert(rng.randint(0, len(v)), rng.choice(self.old_names))
+                    feeds = ONESHOT if oneshot else (SEL_FEEDS_N if role == 'sel' else BASE_FEEDS_N)
+                else:
+                    feeds = ONESHOT if oneshot else (_sel_feeds_i(kind, self.be) if role == 'sel' else _base_feeds_i(kind, self.be))
+                arg = _lit(v, rng.choice(feeds))
+                eff = _eff(arg, {})
+            effi = self.idx_of(eff, dom) if op == 'n' else eff
+            if role == 'sel' and -1 not in effi and _len_trap(kind, mono, effi, n, m):
+                if want_slot:
+                    self.mutate(arg['s'])
+                continue
+            return arg
+        return _lit([])
+
+    def call(self, op=None, kind=None, mono=None, slot_p=0.0, oneshot=False):
+        rng = self.rng
+        if op is None:
+            op, kind, mono = rng.choice(OPS8)
+        sel = self.arg(op, kind, mono, 'sel', rng.random() < slot_p, oneshot and op == 'n')
+        base = None
+        if not (op == 'n' and kind == 'int') and rng.random() < 0.75:
+            base = self.arg(op, kind, mono, 'base', rng.random() < slot_p, oneshot and op == 'n' and rng.random() < 0.7)
+        self.steps.append(_step(op, kind, mono, sel, base))
+        return self.steps[-1]
+
+    def burst(self):
+        """call with caller-owned lists; update them in place; call again (same or sibling operator), nothing in between"""
+        rng = self.rng
+        op, kind, mono = rng.choice(OPS8)
+        st = self.call(op, kind, mono, slot_p=0.85)
+        for _ in range(rng.randint(1, 3)):
+            used = [a['s'] for a in (st['sel'], st.get('base')) if a is not None and 's' in a]
+            for s in used:
+                if rng.random() < 0.7:
+                    self.mutate(s)
+            if rng.random() < 0.3:     # sibling operator with the same argument domains
+                if op == 'i':
+                    kind = {'ext': 'extm', 'extm': 'ext', 'int': 'intm', 'intm': 'int'}[kind]
+                else:
+                    mono = not mono
+            n, m = self.dims()
+            sel, base = st['sel'], st.get('base')
+            if 's' in sel:
+                effi = self.idx_of(self.slots[sel['s']], self.slot_dom[sel['s']]) if op == 'n' else self.slots[sel['s']]
+                if -1 not in effi and _len_trap(kind, mono, effi, n, m):
+                    sel = self.arg(op, kind, mono, 'sel', False)
+            elif sel.get('f') in ONESHOT or (op == 'i' and sel.get('f') not in _sel_feeds_i(kind, self.be)) \
+                    or _len_trap(kind, mono, [0 if op == 'n' else x for x in _eff(sel, {})], n, m):
+                sel = self.arg(op, kind, mono, 'sel', False)
+            if base is not None and 'v' in base and (base.get('f') in ONESHOT or (op == 'i' and base.get('f') not in _base_feeds_i(kind, self.be))):
+                base = self.arg(op, kind, mono, 'base', False)
+            st = _step(op, kind, mono, sel, base)
+            self.steps.append(st)
+
+    def rename(self):
+        rng = self.rng
+        n, m = self.dims()
+        st = dict(op='rename')
+        how = rng.choice(('perm', 'perm', 'pool', 'swap', 'one'))
+        new_o, new_a = list(self.objs), list(self.attrs)
+        if how == 'perm':
+            rng.shuffle(new_o)
+            rng.shuffle(new_a)
+        elif how == 'pool':
+            o, a = _pool(rng, n, m)
+            new_o, new_a = _dflt(o, n), _dflt(a, m)
+            if o is None and rng.random() < 0.7:
+                st['objs'], st['attrs'] = None, None
+        elif how == 'swap' and n == m:
+            new_o, new_a = list(self.attrs), list(self.objs)
+        else:
+            new_o[rng.randrange(n)] = 'new%d' % len(self.steps)
+            new_a[rng.randrange(m)] = 'new%d' % len(self.steps)
+        which = rng.choice(('oa', 'oa', 'o', 'a'))
+        if 'objs' in st:
+            which = 'oa'
+        self.old_names = list(dict.fromkeys(self.old_names + self.objs[:2] + self.attrs[:2]))[-8:]
+        if 'o' in which:
+            st.setdefault('objs', new_o)
+            self.objs = new_o
+        if 'a' in which:
+            st.setdefault('attrs', new_a)
+            self.attrs = new_a
+        self.steps.append(st)
+
+    def newdata(self, reshape=True):
+        rng = self.rng
+        n, m = self.dims()
+        how = rng.choice(('random', 'compl', 'rotrows', 'rotcols', 'onecell') + (('reshape',) if reshape else ()))
+        if how == 'compl':
+            rows = [[1 - v for v in r] for r in self.rows]
+        elif how == 'rotrows':
+            rows = [list(r) for r in self.rows[1:] + self.rows[:1]]
+        elif how == 'rotcols':
+            rows = [r[1:] + r[:1] for r in self.rows]
+        elif how == 'onecell':
+            rows = [list(r) for r in self.rows]
+            i, j = rng.randrange(n), rng.randrange(m)
+            rows[i][j] = 1 - rows[i][j]
+        elif how == 'reshape':
+            n2, m2 = max(1, n + rng.choice((-1, 0, 1, 2))), max(1, m + rng.choice((-1, 0, 1, 2)))
+            rows = [[int(rng.random() < 0.5) for _ in range(m2)] for _ in range(n2)]
+        else:
+            rows = [[int(rng.random() < 0.5) for _ in range(m)] for _ in range(n)]
+        st = dict(op='data', rows=rows)
+        self.rows = rows
+        if (len(rows), len(rows[0])) != (n, m):
+            o, a = _pool(rng, len(rows), len(rows[0]))
+            st['objs'], st['attrs'] = o, a
+            self.objs, self.attrs = _dflt(o, len(rows)), _dflt(a, len(rows[0]))
+            self.steps.append(st)
+            for s in self.slots:        # index lists of the caller must stay inside the new table
+                if s[0] == 'x':
+                    d = self.dim(self.slot_dom[s])
+                    self.slots[s] = [x % d for x in self.slots[s]]
+                    self.steps.append(dict(op='mut', slot=s, v=list(self.slots[s])))
+                else:
+                    self.slots[s] = self.fresh(s)
+                    self.steps.append(dict(op='mut', slot=s, v=list(self.slots[s])))
+        else:
+            self.steps.append(st)
+
+    def run(self, nsteps):
+        rng, w = self.rng, self.w
+        acts = [a for a in ('burst', 'call', 'oneshot', 'rename', 'data', 'scribble', 'sandwich', 'read')
+                for _ in range(w.get(a, 0))]
+        while len(self.steps) < nsteps:
+            a = rng.choice(acts)
+            if a == 'burst':
+                self.burst()
+            elif a == 'call':
+                self.call(slot_p=0.3)
+            elif a == 'oneshot':
+                op, kind, mono = rng.choice(OPS8[4:])
+                self.call(op, kind, mono, slot_p=0.0, oneshot=True)
+            elif a == 'rename':
+                self.rename()
+                if rng.random() < 0.7:
+                    op, kind, mono = rng.choice(OPS8[4:])
+                    self.call(op, kind, mono, slot_p=0.4)
+            elif a == 'data':
+                self.newdata()
+                if rng.random() < 0.7:
+                    self.call(slot_p=0.4)
+            elif a == 'sandwich':
+                # ask; change the context through a public setter or merely read it; ask exactly the same again
+                # (literal arguments are rebuilt from their values, one-shot feeds included)
+                st = self.call(slot_p=0.3) if rng.random() < 0.5 else self.call(*rng.choice(OPS8[4:]), slot_p=0.3)
+                for _ in range(rng.randint(1, 2)):
+                    r = rng.random()
+                    if r < 0.35:
+                        self.rename()
+                    elif r < 0.7:
+                        self.newdata(reshape=False)
+                    else:
+                        self.steps.append(dict(op='read', what=rng.randrange(64)))
+                n, m = self.dims()
+                sel = st['sel']
+                effs = self.slots[sel['s']] if 's' in sel else _eff(sel, {})
+                effi = self.idx_of(effs, 'a' if st['kind'] in ('ext', 'extm') else 'o') if st['op'] == 'n' else effs
+                if -1 in effi or not _len_trap(st['kind'], st.get('mono'), effi, n, m):
+                    self.steps.append(dict(st))
+            elif a == 'read':
+                self.steps.append(dict(op='read', what=rng.randrange(64)))
+            elif self.steps and self.steps[-1]['op'] in ('i', 'n'):
+                self.steps.append(dict(op='scribble'))
+                self.steps.append(dict(self.steps[-2]))      # ask the same thing again
+        out = dict(stream=self.stream, hist=1, be=self.be, rows=self.rows0, objs=self.objs0, attrs=self.attrs0,
+                   slots=self.slots0, steps=self.steps)
+        if self.ctor != 'plain':
+            out['ctor'] = self.ctor
+        return out
+
+
+PROFILES = {
+    'history-alias': dict(burst=6, call=1, scribble=1),
+    'history-oneshot': dict(call=1, oneshot=6, rename=1, unknown=0.12),
+    'history-rename': dict(burst=1, call=1, oneshot=1, rename=3, data=2, sandwich=5, scribble=1, read=1, unknown=0.2),
+    'history-mixed': dict(burst=3, call=3, oneshot=2, rename=1, data=1, sandwich=2, scribble=1, read=1, ctor=0.5),
+}
+
+WIDE = (13, 14, 17, 33, 64, 65, 66, 70)
+HUGE = (129, 257, 300)
+
+
+def _soft_oneshot_index(rng, rows, be):
+    """By-index operators given a one-shot iterator: they call len() (TypeError) - whatever they do, a value that is
+    returned must be the prime set.  Combinations in which the unchanged tree silently returns a wrong value (reported as
+    a finding, not explored): one-shot base on BinTableLists.extension*_i and on BinTableBitarray.intention*_i."""
+    n, m = len(rows), len(rows[0])
+    steps = []
+    for kind in ('ext', 'extm', 'int', 'intm'):
+        ds, db = (m, n) if kind in ('ext', 'extm') else (n, m)
+        for f in ONESHOT:
+            sel = _rsel(rng, ds, dup=False)
+            if kind == 'extm' and len(sel) == m:
+                sel = sel[:-1]
+            steps.append(dict(_step('i', kind, None, _lit(sel, f), None if rng.random() < 0.5 else _lit(_rsel(rng, db))), soft=1))
+            bad = (be == 'BinTableLists' and kind in ('ext', 'extm')) or (be == 'BinTableBitarray' and kind in ('int', 'intm'))
+            if not bad:
+                steps.append(dict(_step('i', kind, None, _lit(sel), _lit(_rsel(rng, db), f)), soft=1))
+    return dict(stream='oneshot-index', hist=1, be=be, rows=rows, objs=None, attrs=None, slots={}, steps=steps)
+
+
+def _wide_table(rng, big_objs, big_attrs):
+    n = rng.choice(WIDE) if big_objs else rng.randint(1, 6)
+    m = rng.choice(WIDE) if big_attrs else rng.randint(1, 6)
+    if big_objs != big_attrs and rng.random() < 0.35:      # beyond one byte of index
+        n, m = (rng.choice(HUGE), m) if big_objs else (n, rng.choice(HUGE))
+    d = rng.choice((0.1, 0.5, 0.9))
+    rows = [[int(rng.random() < d) for _ in range(m)] for _ in range(n)]
+    if rng.random() < 0.3:      # everything true except in the last positions (beyond one machine word / two digits)
+        rows = [[1] * m for _ in range(n)]
+        rows[n - 1][m - 1] = 0
+        rows[rng.randrange(n)][rng.randrange(m)] = 0
+    return rows
+
+
+def _wide_calls(rng, rows, be):
+    """single calls on wide / tall tables: selections and base sets that reach the last rows / columns"""
+    n, m = len(rows), len(rows[0])
+    objs, attrs = _pool(rng, n, m, rng.choice(('gm', 'default', 'revdigits')))
+    steps = []
+    for op, kind, mono in OPS8:
+        ds, db = (m, n) if kind in ('ext', 'extm') else (n, m)
+        for _ in range(2):
+            k = rng.choice((1, 2, ds // 2, ds - 1, ds))
+            sel = rng.sample(range(ds), max(0, min(ds, k)))
+            if rng.random() < 0.3 and len(sel) + 1 < ds:
+                sel.append(sel[0])                   # a repeated index
+            if kind == 'extm' and len(sel) == m and op == 'i' and rng.random() < 0.5:
+                sel = sel[:-1]
+            base = None
+            if not (op == 'n' and kind == 'int') and rng.random() < 0.7:
+                base = rng.sample(range(db), rng.randint(0, db))
+                if rng.random() < 0.3 and base:
+                    base.append(base[0])
+            if op == 'n':
+                ns, nb = (_dflt(attrs, m), _dflt(objs, n)) if kind == 'ext' else (_dflt(objs, n), _dflt(attrs, m))
+                steps.append(_step(op, kind, mono, _lit([ns[i] for i in sel], rng.choice(SEL_FEEDS_N)),
+                                   None if base is None else _lit([nb[i] for i in base], rng.choice(BASE_FEEDS_N))))
+            else:
+                steps.append(_step(op, kind, mono, _lit(sel, rng.choice(_sel_feeds_i(kind, be))),
+                                   None if base is None else _lit(base, rng.choice(_base_feeds_i(kind, be)))))
+    return dict(stream='wide', hist=1, be=be, rows=rows, objs=objs, attrs=attrs, slots={}, steps=steps)
+
+
+def _containers(rng, rows, be):
+    """every admissible feed for the selection and for the base set of every by-index operator, repeated / unsorted indexes"""
+    n, m = len(rows), len(rows[0])
+    steps = []
+    for kind in ('ext', 'extm', 'int', 'intm'):
+        ds, db = (m, n) if kind in ('ext', 'extm') else (n, m)
+        for f in sorted(set(_sel_feeds_i(kind, be))):
+            for _t in range(10):
+                sel = _rsel(rng, ds)
+                if not _len_trap(kind, None, _eff(_lit(sel, f), {}), n, m):
+                    break
+            else:
+                sel = []
+            steps.append(_step('i', kind, None, _lit(sel, f), None if rng.random() < 0.4 else _lit(_rsel(rng, db))))
+        for f in sorted(set(_base_feeds_i(kind, be))):
+            for _t in range(10):
+                sel = _rsel(rng, ds)
+                if not _len_trap(kind, None, sel, n, m):
+                    break
+            else:
+                sel = []
+            steps.append(_step('i', kind, None, _lit(sel), _lit(_rsel(rng, db), f)))
+    return dict(stream='containers', hist=1, be=be, rows=rows, objs=None, attrs=None, slots={}, steps=steps)
+
+
+def _hist_streams(tier, seed, boost):
+    rng = random.Random(seed * 15485863 + 77)
+    quick = tier == 'quick'
+    mult = (1 if quick else 8) * (3 if boost else 1)
+    # complete small scope
+    for rows in G.tables_upto(2, 2):
+        for be in BACKENDS:
+            yield from _exh_alias(rows, be)
+            yield from _exh_oneshot(rows, be)
+    # seeded random histories
+    for stream, count, nmax, nsteps in (('history-alias', 700, 6, 14), ('history-oneshot', 300, 5, 12),
+                                        ('history-rename', 500, 5, 14), ('history-mixed', 300, 7, 18)):
+        for _ in range(count * mult):
+            rows = G.random_table(rng, nmax, nmax)
+            for be in BACKENDS:
+                yield _Hist(rng, rows, be, stream, PROFILES[stream]).run(nsteps)
+    for _ in range(150 * mult):
+        rows = G.random_table(rng, 8, 8)
+        for be in BACKENDS:
+            yield _containers(rng, rows, be)
+            yield _soft_oneshot_index(rng, rows, be)
+    # shape extremes: >= 13 and > 64 objects / attributes
+    for k in range(90 * mult):
+        rows = _wide_table(rng, k % 3 != 0, k % 3 != 1)
+        for be in BACKENDS:
+            yield _wide_calls(rng, rows, be)
+            yield _containers(rng, rows, be)
+            if k % 2 == 0:
+                yield _Hist(rng, rows, be, 'history-wide', PROFILES['history-mixed']).run(14)
